@@ -66,6 +66,9 @@ type Scenario[P any] struct {
 	// FreeBound > 0 additionally limits the number of non-default choices that cost no
 	// deviation (order of threads at blocking points, ready select arms); 0 = unlimited.
 	FreeBound int
+	// KeepChanLog records every channel send/receive of the execution (x.ChanLog) for oracles that need to know who
+	// handed what to whom.
+	KeepChanLog bool
 	// DefaultOnly: run only the default schedule (for checks whose quantifier is not the schedule).
 	DefaultOnly bool
 	// Body runs as the main thread of the execution; it builds fresh objects,
@@ -93,7 +96,7 @@ func Explore[P any](c *kit.Ctx, sc Scenario[P], bound int, shard, shards int) St
 	var last *vsched.Sched
 	runOne := func(w witness[P], trace bool) (kit.Result, *vsched.Sched, *Obs) {
 		o := &Obs{Vals: map[string]int{}}
-		x := vsched.Run(w.Schedule, vsched.Opts{MaxSteps: sc.MaxSteps, KeepTrace: trace}, func() { sc.Body(w.Params, o) })
+		x := vsched.Run(w.Schedule, vsched.Opts{MaxSteps: sc.MaxSteps, KeepTrace: trace, KeepChanLog: sc.KeepChanLog}, func() { sc.Body(w.Params, o) })
 		r := sc.Check(w.Params, o, x)
 		if r.Class == "" && len(x.Panics) > 0 {
 			r = kit.Bad("panic", "panic inside the execution: %s", strings.Join(x.Panics, "\n"))
@@ -121,7 +124,7 @@ func Explore[P any](c *kit.Ctx, sc Scenario[P], bound int, shard, shards int) St
 	execs := 0
 	stepLimited := 0
 	st := vsched.Explore(vsched.ExploreOpts{
-		Bound: bound, FreeBound: sc.FreeBound, DefaultOnly: sc.DefaultOnly, Deadline: c.Deadline(), Shard: shard, Shards: shards, SplitAt: 3, Run: vsched.Opts{MaxSteps: sc.MaxSteps},
+		Bound: bound, FreeBound: sc.FreeBound, DefaultOnly: sc.DefaultOnly, Deadline: c.Deadline(), Shard: shard, Shards: shards, SplitAt: 3, Run: vsched.Opts{MaxSteps: sc.MaxSteps, KeepChanLog: sc.KeepChanLog},
 		Exec: func(prefix []int) *vsched.Sched {
 			if execs++; execs%256 == 0 {
 				runtime.GC()
